@@ -588,6 +588,11 @@ def _l3_chunk(chunk):
             pairs = [(g1, g2, (0.0, 1.5)[variant], (0.0, 0.1)[variant], (1, 4)[variant])]
         elif what[0] == "exclude":
             excludes = [(what[1], what[2])]
+        elif what[0] == "multi":    # many explicit pairs at once (all / even-indexed / odd-indexed geom pairs): merge of the two pair sources
+            ng = len(base.geoms)
+            allp = [(a, b) for a in range(ng) for b in range(a + 1, ng) if has_collider(base.geoms[a][1].type, base.geoms[b][1].type)]
+            sel = [pq for k, pq in enumerate(allp) if what[1] == 0 or k % 2 == what[1] - 1]
+            pairs = [(a, b, 0.3 + 0.01 * k, 0.0, 3) for k, (a, b) in enumerate(sel)]
         else:                       # exclude on a body pair + explicit pair on one of its geom pairs
             _, b1, b2, g1, g2 = what
             excludes = [(b1, b2)]
@@ -615,6 +620,8 @@ def l3_items(n, kindlist, mask_patterns):
                         continue
                     for variant in (0, 1):
                         items.append((kinds, mi, ("pair", g1, g2, variant)))
+            for k in range(3):
+                items.append((kinds, mi, ("multi", k)))
             for b1 in range(nb):
                 for b2 in range(b1 + 1, nb):
                     items.append((kinds, mi, ("exclude", b1, b2)))
@@ -723,7 +730,7 @@ def run(ctx):
                 "placements of the movable bodies on the grid {0,1,2}^2 x {default, midphase off, (1/3) override}; L2: every kind tuple over "
                 "{F,S,M}x{F,S,M,C,W}^(n-1) x every mask assignment from {(1,1),(1,2),(2,1),(0,0)}^n x {1,2 geoms/body, plane owned by a static/mocap body} for n=3 (n=4: %s) x 10 flag settings "
                 "(2 geoms/body) or 4 (others); L3: n=3, every kind tuple x mask patterns x {explicit pair (2 parameter sets) on every geom pair, exclude on every "
-                "body pair, exclude+pair} x 4 flag settings (mask patterns: %s); L4: sleep enabled, 1-2 trees initialised asleep (+mocap), 0-2 explicit pairs, all "
+                "body pair, exclude+pair, explicit pairs on all / even / odd geom pairs at once} x 4 flag settings (mask patterns: %s); L4: sleep enabled, 1-2 trees initialised asleep (+mocap), 0-2 explicit pairs, all "
                 "placements of the awake bodies x midphase on/off. non-trivial = evaluation whose expected set is neither empty nor all pairs"
                 % (ctx.extra["L1_models"], "all masks" if ctx.thorough else "2 uniform masks",
                    "all (1,1) / all (0,0) / alternating (1,2),(2,1) / alternating (2,1),(1,2)" if ctx.thorough else "all (1,1) / all (0,0)"))
